@@ -351,7 +351,8 @@ PROPS = {
     "C17": {
         "module": "Shutter.Properties.C17",
         "theorems": ["C17_match_total", "C17_alloc_bounded", "C17_match_spec_static", "C17_match_spec_topic",
-                     "C17_match_spec_dynamic", "C17_filter_exists", "C17_filter_sound", "C17_decode_valid"],
+                     "C17_match_spec_dynamic", "C17_filter_exists", "C17_filter_sound", "C17_decode_valid",
+                     "C17_rlp_roundtrip", "C17_roundtrip", "C17_roundtrip_bounds", "C17_marshal_injective"],
         "driver": {"pkg": "./cmd/tdcheck"},
         "trusted_base": [KERNEL, CORR,
                          "modelled, not verified: go-ethereum rlp (re-implemented in the model with its canonical-form checks and compared "
@@ -360,10 +361,12 @@ PROPS = {
         "explanation": "Theorems (Lean): matching a valid definition against any log is total (no slice of log-controlled data leaves its "
                        "bounds) and allocates at most |data| + 3 words; on well-formed data it reads exactly the documented topic / word / "
                        "ABI slice; every valid definition has a filter and every matching log passes it; successful decoding yields a valid "
-                       "definition. The real Validate, MarshalBytes, UnmarshalBytes, Match, ToFilterQuery are compared with the model on "
+                       "definition; every valid definition is read back unchanged from its own bytes (RLP round trip proved for arbitrary "
+                       "item trees, with go-ethereum's canonical-form checks), so no two valid definitions share an encoding. The real Validate, MarshalBytes, UnmarshalBytes, Match, ToFilterQuery are compared with the model on "
                        "generated definitions x aimed logs and on mutated encodings, under recover().",
         "assumptions": ["log data shorter than 2^62 bytes (uint64 arithmetic on offsets does not wrap)",
-                        "byte-level RLP round-trip is compared with the implementation, not proved (C17_roundtrip is not claimed as a theorem)"],
+                        "round trip: byte arguments shorter than 2^64 bytes and integer arguments below 2^256 (any larger value cannot equal "
+                        "a 32-byte word); the model's encoder and decoder are tied to go-ethereum's by the byte-for-byte comparison"],
     },
     "C14": {
         "module": "Shutter.Properties.C14",
